@@ -89,6 +89,14 @@ def frame_of(mw) -> pd.DataFrame:
         day_df.drop(columns=["actual_time", "min_price", "max_price"], inplace=True)
         df = pd.concat([df, day_df])
     df = df.sort_index()
+    if mw.get("filtered_from_half_hours"):
+        # the hourly frame is what is left of a finer one (snapshots every 30 minutes) after keeping the rows on the hour:
+        # same rows, same values - but the MultiIndex still lists the dropped timestamps among its (unused) levels
+        extra = df.copy()
+        extra.index = pd.MultiIndex.from_arrays([extra.index.get_level_values(0) + pd.Timedelta(minutes=30), extra.index.get_level_values(1)],
+                                                names=df.index.names)
+        both = pd.concat([df, extra]).sort_index()
+        df = both[both.index.get_level_values(0).minute == 0]
     return df
 
 
